@@ -354,6 +354,30 @@ func (ex *Exec) primExt(fn *ssa.Function, args []Value) (Value, bool) {
 			es = append(es, derElem{"int", ex.argBig(ex.load(vals.A.E[vals.Off+k]), "vpxSpecDigest").I})
 		}
 		return ex.newBig(BigVal{I: ex.specDigest(es)}), true
+	case "vpxFsSetup":
+		// (name, exists bool, mode int, umask int): symbolic pre-state of the file system
+		name := ex.str(args[0])
+		f := ex.fsGet(name)
+		f.Exists = term(args[1])
+		f.Mode = term(args[2])
+		f.HasData = smt.False
+		ex.umaskT = term(args[3])
+		return name, true
+	case "vpxKeyXML":
+		n, _ := term(args[0]).ConstInt64()
+		return fmt.Sprintf("VPKEYXML:%d", n), true
+	case "vpxWriteTemp":
+		name := fmt.Sprintf("/vp/tmp%d", len(ex.fileContent))
+		ex.fileContent[name] = ex.str(args[0])
+		return name, true
+	case "vpxFsDone":
+		return nil, true
+	case "vpxFsMode":
+		return ex.fsGet(ex.str(args[0])).Mode, true
+	case "vpxFsHasData":
+		return ex.fsGet(ex.str(args[0])).HasData, true
+	case "vpxFsExists":
+		return ex.fsGet(ex.str(args[0])).Exists, true
 	case "vpxPrimeNear":
 		b := ex.argBig(args[0], "vpxPrimeNear")
 		ex.assume(isPrime(b.I))
